@@ -380,17 +380,17 @@ fn redeem_roundtrip(p: &Prog, wit: &[Option<Rc<RV>>], jets: &JetCodes, out: &mut
     Ok(())
 }
 
-/// wide witness types on corner values: programs `comp (comp witness jet) unit` style with 8..256 bit witnesses
+/// every jet, wide witness types on corner values: programs `comp (comp witness jet) unit`
 fn leg_wide(ctx: &Ctx, out: &mut Out) {
     let leg = "wide";
     for fam in [Fam::Core, Fam::Elements] {
         let jets = JetCodes::new(fam);
-        let names = ["complement_8", "add_32", "sha_256_block", "eq_256", "full_multiply_64", "bip_0340_verify"];
-        for name in names {
+        // every jet of the family (each has its own row in the encoder's code table and its own
+        // path in the decoder's tree)
+        for j in 0..fam.n_jets() as u16 {
             if !ctx.mine() {
                 continue;
             }
-            let j = fam.find(name);
             // 0=witness 1=jet 2=comp(0,1) 3=unit 4=comp(2,3)
             let dag: Dag = vec![
                 Node { sym: Sym::Witness, l: 0, r: 0 },
@@ -403,7 +403,10 @@ fn leg_wide(ctx: &Ctx, out: &mut Out) {
                 out.violation("wide:untypable", leg, render(&dag, fam), "reference cannot type the one-jet program".into());
                 continue;
             };
-            let (assignments, _) = p.witness_assignments(4, 64);
+            let (mut assignments, _) = p.witness_assignments(4, 64);
+            if ctx.tier == Tier::Quick {
+                assignments.truncate(3);
+            }
             out.cap("wide witness types: corner values only");
             for wit in &assignments {
                 let label = || format!("{} redeem {}", p.render(), wit_str(wit));
